@@ -1,6 +1,7 @@
 /-
-C05: concrete layouts used as counterexamples (`…_full_fails`) and as non-vacuity examples.
-They are the literal layouts of corpus/C05/witnesses.txt, which the check replays on the real code.
+C05: concrete layouts used as non-vacuity examples. f1/f2/f12 are the literal layouts of
+corpus/C05/witnesses.txt on which the code failed before the fix: commits (findings F1, F2, F12);
+the check replays them on the real code in every run.
 -/
 import ArvVerif.Model.C05
 namespace ArvVerif.C05
